@@ -158,7 +158,7 @@ async fn main() -> Result<()> {
     };
 
     // Clean state files if requested
-    if cli.clean_state {
+    if cli.clean_state && !cli.dry_run {
         use sync::resume::ResumeState;
         if let Err(e) = ResumeState::delete(destination.path()) {
             tracing::warn!("Failed to clean state file: {}", e);
@@ -168,7 +168,7 @@ async fn main() -> Result<()> {
     }
 
     // Clear cache if requested (before creating engine)
-    if cli.clear_cache {
+    if cli.clear_cache && !cli.dry_run {
         use sync::dircache::DirectoryCache;
         if let Err(e) = DirectoryCache::delete(destination.path()) {
             tracing::warn!("Failed to clear directory cache: {}", e);
